@@ -232,25 +232,56 @@ CORPUS = [
 def _build_groove(desc):
     import pyroll.core as pc
     if desc["cls"] == "SplineGroove":
-        return pc.SplineGroove(desc["points"], classifiers=("spline",))
+        return pc.SplineGroove(desc["points"], classifiers=("spline",), usable_width=desc.get("usable_width"))
     return getattr(pc, desc["cls"])(**desc["kwargs"])
+
+
+def _spline_points(rng, which, s):
+    """a random polyline that starts and ends on the face level (y = 0) and stays above it in between.
+    `SplineGroove` keeps exactly one face vertex at each end, so the faces are the end points: horizontal faces of zero
+    length for two rolls and - with usable_width = width - 30-degree faces of zero length for three rolls (the end
+    vertices are the usable-width points).  Spline grooves may be asymmetric by design (digitised drawings): most of the
+    generated ones are NOT mirror symmetric about z = 0, which is where a flip differs from a half turn."""
+    w, d = s * rng.uniform(10, 80), s * rng.uniform(2, 40)
+    kind = rng.random()
+    if kind < 0.25:
+        # mirror-symmetric
+        n = rng.randrange(1, 8)
+        xs = sorted(rng.uniform(0.02, 0.98) * w / 2 for _ in range(n))
+        ys = [d * rng.uniform(0.05, 1) for _ in range(n)]
+        y0 = d if rng.random() < 0.7 else d * rng.uniform(0.05, 1)
+        half = list(zip(xs, ys))
+        inner = [(-x, y) for x, y in reversed(half)] + [(0.0, y0)] + half
+        tag = "symmetric"
+    else:
+        n = rng.randrange(1, 12)
+        if kind < 0.45:
+            # skewed: the deepest point far off the middle, monotone flanks
+            xm = w / 2 * rng.choice([-1, 1]) * rng.uniform(0.3, 0.9)
+            xs = sorted([xm] + [rng.uniform(-0.98, 0.98) * w / 2 for _ in range(n - 1)])
+            inner = [(x, d * (1 - abs(x - xm) / (w / 2 + abs(xm))) ** rng.uniform(0.5, 2)) for x in xs]
+            tag = "skewed"
+        else:
+            xs = sorted(rng.uniform(-0.98, 0.98) * w / 2 for _ in range(n))
+            inner = [(x, d * rng.uniform(0.05, 1)) for x in xs]
+            tag = "asymmetric"
+        inner = [(x, y) for (x, y), (x2, _) in zip(inner, inner[1:] + [(w, 0)]) if x2 - x > 1e-6 * w]
+    pad = w * rng.uniform(0.05, 0.4) if rng.random() < 0.5 else 0.0       # horizontal runs are stripped by SplineGroove
+    off = s * rng.uniform(-50, 50) if rng.random() < 0.5 else 0.0          # drawings are not centred
+    pts = ([(-w / 2 - pad, 0.0)] if pad else []) + [(-w / 2, 0.0)] + inner + [(w / 2, 0.0)] + ([(w / 2 + pad, 0.0)] if pad else [])
+    return [[x + off, y] for x, y in pts], tag, w
 
 
 def _random_groove(rng, which, ctx):
     """-> (desc, groove) ; desc is JSON-able and sufficient to rebuild the groove"""
     s = 10 ** rng.uniform(-3, 0)
-    if which == "two" and rng.random() < 0.12:
-        # arbitrary mirror-symmetric polyline with horizontal faces
-        n = rng.randrange(2, 9)
-        w, d = s * rng.uniform(10, 80), s * rng.uniform(2, 40)
-        xs = sorted(rng.uniform(0, w / 2) for _ in range(n))
-        ys = [d * rng.uniform(0.05, 1) for _ in range(n)]
-        ys[0] = d if rng.random() < 0.7 else ys[0]
-        half = [(x, y) for x, y in zip(xs, ys) if 0 < x < w / 2 * 0.999]
-        pad = w * rng.uniform(0.05, 0.4)
-        pts = [(-w / 2 - pad, 0.0), (-w / 2, 0.0)] + [(-x, y) for x, y in reversed(half)] + [(0.0, ys[0])] + half + \
-              [(w / 2, 0.0), (w / 2 + pad, 0.0)]
-        desc = {"cls": "SplineGroove", "points": [list(p) for p in pts]}
+    if rng.random() < (0.22 if which == "two" else 0.12):
+        pts, tag, w = _spline_points(rng, which, s)
+        desc = {"cls": "SplineGroove", "points": pts, "shape": tag}
+        if which == "two" and rng.random() < 0.3:
+            # the drawing states a usable width (passed explicitly): equal to the width (a float computed another way) or,
+            # for two rolls, smaller (the faces then begin inside the drawn contour; still level 0 at the ends)
+            desc["usable_width"] = w if rng.random() < 0.5 else w * rng.uniform(0.6, 0.99)
     else:
         cls = rng.choice(sorted(CATALOGUE))
         kw = dict(CATALOGUE[cls])
@@ -282,7 +313,12 @@ def _fresh(which, groove, **given):
 # run
 # --------------------------------------------------------------------------------------------------------------
 class _ImplRaised(Exception):
-    pass
+    """the implementation raised something other than the AttributeError of an unavailable hook"""
+
+
+class _Malformed(Exception):
+    """the implementation answered with something the property text cannot be evaluated on (wrong type, wrong shape,
+    non-finite number): reported as a violation with the concrete case, never as a harness crash"""
 
 
 def _in_pyroll(ex):
@@ -290,18 +326,60 @@ def _in_pyroll(ex):
     return any("/pyroll/" in f.filename for f in traceback.extract_tb(ex.__traceback__))
 
 
-def _read(rp, name):
-    """('ok', float) | ('attr', message) ; any other exception from inside pyroll propagates as _ImplRaised"""
+def _get(rp, name):
+    """('ok', value) | ('attr', message) ; any other exception from inside pyroll -> _ImplRaised"""
     try:
-        return ("ok", float(getattr(rp, name)))
+        return ("ok", getattr(rp, name))
     except AttributeError as ex:
         if _in_pyroll(ex):
             return ("attr", str(ex)[:120])
         raise
     except Exception as ex:
         if _in_pyroll(ex):
-            raise _ImplRaised(f"{type(ex).__name__}: {ex}") from ex
+            raise _ImplRaised(f"reading {name}: {type(ex).__name__}: {ex}"[:300]) from ex
         raise
+
+
+def _read(rp, name):
+    """('ok', float) | ('attr', message) | ('bad', description of a value that is not a finite real number)"""
+    r = _get(rp, name)
+    if r[0] != "ok":
+        return r
+    v = r[1]
+    try:
+        import numbers
+        import numpy as np
+        if isinstance(v, bool) or not (isinstance(v, numbers.Real) or (isinstance(v, np.ndarray) and v.ndim == 0)):
+            return ("bad", f"{type(v).__name__} {v!r}"[:120])
+        f = float(v)
+    except Exception:
+        return ("bad", f"{type(v).__name__}"[:120])
+    if not math.isfinite(f):
+        return ("bad", repr(f))
+    return ("ok", f)
+
+
+def _lines_of(cl, what="contour_lines"):
+    """the vertex arrays of a MultiLineString-like answer; _Malformed when it is something else"""
+    import numpy as np
+    geoms = getattr(cl, "geoms", None)
+    if geoms is None:
+        raise _Malformed(f"{what} is a {type(cl).__name__}, not a collection of lines")
+    out = []
+    for g in geoms:
+        try:
+            a = np.array(g.coords, dtype=float)
+        except Exception as ex:
+            raise _Malformed(f"{what}: a member of type {type(g).__name__} has no usable coordinates ({type(ex).__name__})")
+        if a.ndim != 2 or a.shape[0] < 2 or a.shape[1] < 2:
+            raise _Malformed(f"{what}: a line with coordinate array of shape {a.shape}")
+        a = a[:, :2]
+        if not np.isfinite(a).all():
+            raise _Malformed(f"{what}: non-finite coordinates")
+        out.append(a)
+    if not out:
+        raise _Malformed(f"{what} is empty")
+    return out
 
 
 def _orders(which):
